@@ -392,6 +392,8 @@ class Parser:
         if t.kind == 'num':
             self.i += 1
             txt = t.text.rstrip('uUlL')
+            if re.search(r'[uU]', t.text[len(txt):]):
+                raise self.err(f'unsigned literal {t.text} (unsigned arithmetic is outside the subset)')
             if re.fullmatch(r'\d+', txt):
                 return ('int', int(txt))
             if re.fullmatch(r'0[xX][0-9a-fA-F]+', txt):
@@ -1643,9 +1645,11 @@ Each definition is the translation of ONE C++ function (file, line range and has
 front end of translator/cscalar.py; `Mahotas/Proofs/CScalarTies.lean` proves it equal to the hand-written model.
 
 Integer semantics: `npy_intp` / `int` / `index_type` values are unbounded `Int` (standing assumption of the trusted
-base: sizes < 2^31, no index overflow); `/` and `%` on them are `Int.tdiv` / `Int.tmod`. Values of a template type `T`
-are the `Int`s of the dtype `dt : DT`; a store or cast to `T` of an arithmetic result is `dt.wrap`;
-`numeric_limits<T>::min()/max()/is_signed` are `dt.lo` / `dt.hi` / `dt.signed`. -/
+base: sizes < 2^31, no index overflow); `/` and `%` on them are `Int.tdiv` / `Int.tmod` (a zero divisor is undefined in
+C++; the Lean value is then 0 / the dividend). Values of a template type `T` are the `Int`s of the dtype `dt : DT`; a store
+or cast to `T` of an arithmetic result is `dt.wrap`; `numeric_limits<T>::min()/max()/is_signed` are `dt.lo` / `dt.hi` /
+`dt.signed`. 32-bit unsigned values are `Nat`s below 2^32 (`<<` reduced mod 2^32). Trace translations return the list of
+array reads in source order. Loops are `List.foldl` over `List.range` with the assigned variables as state. -/
 import Mahotas.Model.Basic
 import Mahotas.Model.DType
 namespace Mahotas.Generated.C
